@@ -53,6 +53,8 @@ impl WidSet { #[verifier::external_body] pub fn contains(&self, k: &u32) -> (r: 
 pub struct IdxSet { pub s: Ghost<Set<usize>> }
 impl IdxSet { #[verifier::external_body] pub fn contains(&self, k: &usize) -> (r: bool) ensures r == self.s@.contains(*k) { unimplemented!() } }
 pub struct PrepView { pub ext_reads: Vec<u32>, pub dup_npo_outputs: DupMap, pub hint_output_wids: WidSet }
+/// the coefficient slot i of the row takes part in the witness bus (non-zero multiplicity) whoever creates it
+pub uninterp spec fn every_coefficient_is_on_the_bus(new: Seq<V>, rs: int, i: int) -> bool;
 pub open spec fn coef_ok(new: Seq<V>, old: Seq<V>, er: Seq<u32>, hints: Set<u32>, rs: int, i: int, d: int) -> bool {
     let cw = (old[rs + 2 + i * 2].0 as usize / (d as usize)) as int;
     new[rs + 2 + i * 2 + 1] == vfrom(if hints.contains(cw as usize as u32) { reads_of(er, cw) } else { 0 })
@@ -161,6 +163,10 @@ def build():
             final(prep_base)@[rs + 1] == (if dup_at(prep.dup_npo_outputs.m@, *op_type, w) { neg_one } else { vfrom(reads_of(prep.ext_reads@, w)) }) })''')
     c.ensures('coefficient_multiplicities_count_reads_of_hinted_coefficients_only', '''coeff_lookups ==> forall|i: int| 0 <= i < D ==>
             #[trigger] coef_ok(final(prep_base)@, old(prep_base)@, prep.ext_reads@, prep.hint_output_wids.s@, row_idx * prep_width, i, D as int)''')
+    # C12 / C09 (open finding, round 17): a coefficient whose slot has ANOTHER creator (a constant through assert_zero, a public input through connect) is not a hint output any more, so the coefficient table
+    # neither creates nor reads it (multiplicity 0): on the very path documented as the sound one nothing ties that coefficient to the decomposed value
+    c.ensures('H_a_coefficient_that_has_another_creator_is_still_read_by_the_coefficient_table', '''coeff_lookups ==> forall|i: int| 0 <= i < D ==>
+            #[trigger] every_coefficient_is_on_the_bus(final(prep_base)@, row_idx * prep_width, i)''')
     c.ensures('index_columns_and_other_rows_untouched', '''final(prep_base)@.len() == old(prep_base)@.len() && forall|q: int| 0 <= q < old(prep_base)@.len() && !(row_idx * prep_width < q < (row_idx + 1) * prep_width && (q - row_idx * prep_width) % 2 == 1)
             ==> #[trigger] final(prep_base)@[q] == old(prep_base)@[q]''')
     c.at_start('''proof { vstd::arithmetic::mul::lemma_mul_is_distributive_add_other_way(prep_width as int, row_idx as int, 1); vstd::arithmetic::mul::lemma_mul_nonnegative(row_idx as int, prep_width as int); assert((row_idx + 1) * prep_width == row_idx * prep_width + prep_width); assert(prep_width >= 2); assert(row_idx * prep_width + prep_width <= prep_base@.len()); assert(row_idx * prep_width <= usize::MAX); }''')
